@@ -16,7 +16,14 @@ GeoOk(e) == LET N == e.n IN
    /\ Len(e.out) = N
    /\ (N >= 2 => e.out[1] = e.first /\ e.out[N] = e.last)
    /\ \A i \in 1..(N-1) : e.out[i][1] <= e.out[i+1][1]                   \* test paths run eastwards
-Ok(e) == e.k = "resample" /\ (IF e.geo = 1 THEN GeoOk(e) ELSE ExactOk(e) /\ e.pstable = 1)
+\* ToInterval with d a hair (1e-10 relative) above (side = 1) or below (side = -1) total / parts:
+\* floor(total / d) + 1 points, i.e. parts points above and parts + 1 below, starting at the first vertex
+ICountOk(e) == /\ e.n = (IF e.side = 1 THEN e.parts ELSE e.parts + 1)
+               /\ e.ends = 1
+\* inexact coordinates: exactly the requested number of points, from the first vertex to the last
+FCountOk(e) == e.n = e.nreq /\ e.ends = 1
+Ok(e) == CASE e.k = "icount" -> ICountOk(e) [] e.k = "fcount" -> FCountOk(e)
+           [] OTHER -> e.k = "resample" /\ (IF e.geo = 1 THEN GeoOk(e) ELSE ExactOk(e) /\ e.pstable = 1)
 Init == l = 1 /\ bad = {}
 Next == /\ l <= Len(Trace) /\ l' = l + 1
         /\ bad' = IF Ok(Trace[l]) THEN bad ELSE bad \cup {l}
